@@ -76,11 +76,13 @@ claimed = {
          "their lanes are exempted through scope lines in known_findings.txt, listed in the evidence assumptions."),
    design="5 (C06)", technique="deductive verification: lane-loop summarisation (Houdini-filtered clause invariants with bit/cell meta-lemmas) over go/ssa + SMT"),
  "C09": dict(
-   text=("The allocation masks of a compute unit (resourceMaskImpl.nextRegion/setStatus/convertStatus/statusCount) and CUResourceImpl.unitsOccupy are under contract for all mask contents and arguments: "
-         "a region returned by nextRegion lies inside the mask and consists only of units in the requested status, setStatus/convertStatus change exactly the units they name, and unit counts round up. "
-         "ReserveResourceForWG/FreeResourcesForWG (the reserve-then-commit table), the placement algorithms and the dispatcher's completion accounting are not yet under contract."),
-   note=(TB + "First-fit/completeness of nextRegion (false only if no region exists) is not stated; message interleavings are outside the technique."),
-   design="5 (C09)", technique="deductive verification: WP-style VC generation over go/ssa + SMT (array loop invariants)"),
+   text=("Under contract: the allocation masks of a compute unit (resourceMaskImpl.nextRegion/setStatus/convertStatus/statusCount: a returned region lies inside the mask and has the requested status, updates touch exactly the named units) and unitsOccupy (round-up); "
+         "FreeResourcesForWG releases, for every wavefront location, exactly the rounded-up LDS/SGPR/VGPR unit counts at the recorded offsets with status Free and forgets the work-group (site obligations); "
+         "DispatcherImpl.kernelCompleted holds exactly when no work-group is waiting to be sent, none is left to place and every dispatched one has completed; partitionAlgorithm.Next books a placed work-group on the partition it was taken from and counts it once. "
+         "ReserveResourceForWG (the reserve-then-commit search), the other placement algorithms and the message handlers are not yet under contract."),
+   note=(TB + "The masks behind their interface, the CU pool and the algorithm interface are external in the callers (extern declarations); first-fit completeness of nextRegion is not stated; message interleavings are outside the technique."),
+   design="5 (C09)", technique="deductive verification: WP-style VC generation over go/ssa + SMT (array loop invariants, call-site obligations)"),
+
  "C10": dict(
    text=("The default page allocator's per-device free list (deviceMemoryStateImpl) is under contract for page sizes 2^12..2^16: registering a device appends exactly the pages of "
          "[initialAddress, initialAddress+storageSize) in ascending order (count = storageSize >> log2PageSize, each address initialAddress + k*pageSize), pop returns and removes the head, "
